@@ -13,6 +13,8 @@ import PygModel.Txt
 import PygProofs.Lemmas.LiftXLemmas
 import PygModel.WaiterF
 import PygProofs.Lemmas.WaiterFLemmas
+import PygModel.WaiterLog
+import PygProofs.Lemmas.WaiterLogLemmas
 
 namespace Pyg.Props.C19
 open Pyg
@@ -1689,5 +1691,42 @@ theorem waiterF_confluent (w : W) (res : Nat → Val) (σ : List Nat) (h : σ.Pe
   simp only [List.map_map] at this
   rw [waiter_confluent w res σ h] at this
   simpa [Function.comp_def] using this
+
+
+/-! ### the waiter with a LOG-BASED gather (PygModel/WaiterLog.lean): "positional" is a lemma, not the construction -/
+
+/-- **`asyncio.gather` returns its children's results positionally** - proved of a gather node that only keeps a log of
+completions in ARRIVAL order `(child index, result)`: for any log that is a permutation of the children's completion records
+(any arrival order), once all children are done the log holds one record per child and the results read off it are the
+children's results in the order of the children. -/
+theorem gather_positional (children : List TaskL) (vs : List Val) (log : List (Nat × Val))
+    (hall : allRet (TaskL.toTaskList children) = some vs) (hp : log.Perm (doneLog 0 children)) :
+    log.length = children.length ∧ logResults children.length log = vs :=
+  logResults_positional children vs log hall hp
+
+example : logResults 3 [(2, .cell (.int 30)), (0, .cell (.int 10)), (1, .cell (.int 20))] =
+    [.cell (.int 10), .cell (.int 20), .cell (.int 30)] := by decide +kernel
+
+/-- **The log machine refines the slot machine**: for every structure and every sequence of completion events (any order,
+incomplete, with repetitions), forgetting the logs of the log-based task tree gives the task tree of `PygModel.Waiter` - so what
+the awaiting caller sees is the same, and `waiter_order_irrelevant`, `waiter_any_schedule`, `waiter_confluent`,
+`waiter_suspended` are theorems about the log-based machine too. -/
+theorem waiterL_refines (w : W) (evs : List (Nat × Val)) : (runEventsL w evs).toTask = runEvents w evs := by
+  obtain ⟨h1, h2⟩ := startL_refines w
+  have := (foldL_refines evs (startL w) h2).1
+  simpa [runEventsL, runEvents, h1] using this
+
+theorem waiterL_result (w : W) (evs : List (Nat × Val)) : (runEventsL w evs).result = (runEvents w evs).result := by
+  rw [← waiterL_refines, toTask_result]
+
+/-- schedule independence of the log-based machine: every completion order gives the resolved structure … -/
+theorem waiterL_confluent (w : W) (res : Nat → Val) (σ : List Nat) (h : σ.Perm (awaitables w)) :
+    (runEventsL w (σ.map fun i => (i, res i))).result = some (resolve res w) := by
+  rw [waiterL_result]; exact waiter_confluent w res σ h
+
+/-- … and not before the last awaitable is done -/
+theorem waiterL_suspended (w : W) (res : Nat → Val) (σ : List Nat) (h : ∃ i ∈ awaitables w, i ∉ σ) :
+    (runEventsL w (σ.map fun i => (i, res i))).result = none := by
+  rw [waiterL_result]; exact waiter_suspended w res σ h
 
 end Pyg.Props.C19
